@@ -51,12 +51,12 @@ func init() {
 	dm1 := func(d *sym.Term) *sym.Term { return sym.Sub(d, one) }
 	expSum := func(a, b *sym.Term) *sym.Term { return sym.Fn("log", sym.Add(sym.Fn("exp", a), sym.Fn("exp", b))) }
 	opDefs = map[string]*opDef{
-		"neg": {def: sym.Neg(P(0))},
-		"add": {def: sym.Add(P(0), P(1))},
-		"sub": {def: sym.Sub(P(0), P(1))},
-		"mul": {def: sym.Mul(P(0), P(1))},
-		"div": {def: sym.Div(P(0), P(1))},
-		"pow": {def: sym.Fn("pow", P(0), P(1))},
+		"neg":  {def: sym.Neg(P(0))},
+		"add":  {def: sym.Add(P(0), P(1))},
+		"sub":  {def: sym.Sub(P(0), P(1))},
+		"mul":  {def: sym.Mul(P(0), P(1))},
+		"div":  {def: sym.Div(P(0), P(1))},
+		"pow":  {def: sym.Fn("pow", P(0), P(1))},
 		"sqrt": {def: sym.Fn("pow", P(0), sym.Rat(1, 2)), why: "square root = power 1/2"},
 		"sin":  {def: sym.Fn("sin", P(0))}, "cos": {def: sym.Fn("cos", P(0))}, "tan": {def: sym.Fn("tan", P(0))},
 		"sinh": {def: sym.Fn("sinh", P(0))}, "cosh": {def: sym.Fn("cosh", P(0))}, "tanh": {def: sym.Fn("tanh", P(0))},
